@@ -1317,7 +1317,6 @@ func (p *Prog) tableEntries(sp, name string) []tableEntry {
 	return out
 }
 
-
 // condsThrough: the branch conditions known at n inside fd, accumulated through every enclosing function literal (a literal
 // is created where its FuncLit node stands, so what holds there holds whenever the literal's body runs later).
 func (c *Ctx) condsThrough(fd *ast.FuncDecl, n ast.Node) []pathCond {
@@ -1344,7 +1343,6 @@ func (c *Ctx) condsThrough(fd *ast.FuncDecl, n ast.Node) []pathCond {
 	}
 	return out
 }
-
 
 // everyExitAfter: every path from just after `from` to a normal exit of the function (a return statement, or falling off
 // the end) passes a CFG node for which stop holds. Exits through a call that does not return (panic) are not counted.
